@@ -315,6 +315,20 @@ class Interp(ExprMixin, StmtMixin):
     def bind_params(self, a: ast.arguments, args, kwargs, env, f, path):
         kwargs = dict(kwargs)
         pos = list(a.posonlyargs) + list(a.args)
+        ss0 = kwargs.get("$starstar")
+        if isinstance(ss0, SDict):
+            # a symbolic ** mapping may carry the name of any keyword-capable parameter: Python binds that parameter
+            # from it (or raises TypeError when the parameter already has a value) - only other keys reach **kwargs
+            n_plain = len([x for x in args if not isinstance(x, _StarArgs)])
+            taken = {p.arg for p in pos[:n_plain]}
+            for name in [p.arg for p in a.args] + [p.arg for p in a.kwonlyargs]:
+                key = to_val(name)
+                if path.branch(ss0.has(key)):
+                    if name in taken or name in kwargs:
+                        raise PyRaise(TypeError, note=f"got multiple values for argument {name!r}")
+                    kwargs[name] = ss0.get(key)
+                    ss0 = SDict(lambda k, h=ss0.has, key=key: z3.And(h(k), k != key), ss0.get, exact=ss0.exact)
+            kwargs["$starstar"] = ss0
         star = None
         if any(isinstance(x, _StarArgs) for x in args):
             if isinstance(args[-1], _StarArgs) and len(args) - 1 == len(pos) and a.vararg \
@@ -509,7 +523,8 @@ class Interp(ExprMixin, StmtMixin):
     builtin_models_by_name: dict = {}
 
     # ------------------------------------------------------------------ driving a function
-    def run_function(self, qualname, make_args, axioms=(), setup=None, timeout_ms=2000, max_paths=4000, name_prefix=""):
+    def run_function(self, qualname, make_args, axioms=(), setup=None, timeout_ms=2000, max_paths=4000, name_prefix="",
+                     then=None):
         """Explore all paths of the function ``qualname``.
 
         make_args(interp, path) -> (args, kwargs[, self_obj])
@@ -554,6 +569,9 @@ class Interp(ExprMixin, StmtMixin):
             self.interpreting += 1
             try:
                 v = self.call_value(fn, args, kwargs, path)
+                if then is not None:
+                    # a continuation explored as part of the same paths (e.g. calling the closure that was returned)
+                    v = then(self, path, v, made)
                 out = Outcome("ret", value=v)
             except PyRaise as e:
                 out = Outcome("raise", exc=e)
